@@ -166,6 +166,8 @@ pub struct Gen<'a> {
     tail_labels: Vec<Option<String>>,
     /// helper functions `setslot<M>` (store M through the pointer in a0) that the program calls
     setslots: Vec<i64>,
+    /// helper functions `seta7_<M>` (set a7 to M and return)
+    seta7: Vec<i64>,
 }
 
 pub fn generate(r: &mut Rng, cfg: &GenCfg) -> Vec<String> {
@@ -178,6 +180,7 @@ pub fn generate(r: &mut Rng, cfg: &GenCfg) -> Vec<String> {
         fn_names: Vec::new(),
         tail_labels: Vec::new(),
         setslots: Vec::new(),
+        seta7: Vec::new(),
     };
     g.program();
     g.out
@@ -507,6 +510,24 @@ impl Gen<'_> {
     fn ecall(&mut self, ctx: &mut FnCtx) {
         if self.r.chance(1, 12) {
             self.ecall_number_in_overwritten_local(ctx);
+            return;
+        }
+        if (ctx.idx.is_none() || ctx.saves_ra) && self.r.chance(1, 16) {
+            // the number of the service is set, then a function is called through a register:
+            // whatever it was, it was free to change a7
+            let m = *self.r.pick(&[1i64, 11]);
+            let x = *self.r.pick(&[10i64, 93]);
+            if !self.seta7.contains(&m) {
+                self.seta7.push(m);
+            }
+            self.emit(format!("jal seta7_{m}"));
+            self.emit(format!("la {}, seta7_{m}", self.reg("t0")));
+            self.emit(format!("li {}, {x}", self.reg("a7")));
+            self.emit(format!("jalr {}, {}, 0", self.reg("ra"), self.reg("t0")));
+            self.emit(format!("li {}, 42", self.reg("a0")));
+            self.emit("ecall".into());
+            ctx.defined.retain(|r| r.starts_with('s') || *r == "zero");
+            ctx.defined.push("a0");
             return;
         }
         if self.r.chance(1, 16) {
@@ -1055,6 +1076,11 @@ impl Gen<'_> {
             } else {
                 self.ret(&ctx);
             }
+        }
+        for m in self.seta7.clone() {
+            self.emit_label(&format!("seta7_{m}"));
+            self.emit(format!("li {}, {m}", self.reg("a7")));
+            self.emit("ret".into());
         }
         for m in self.setslots.clone() {
             self.emit_label(&format!("setslot{m}"));
